@@ -7,7 +7,7 @@ CONSTANTS
   SessIdx <- PairIdx
   MaxForge = 4
   MaxSend = 2
-  Window = 2
+  Window = 1000
   Weak = {"parity"}
   MaxSteps = 14
 CHECK_DEADLOCK FALSE
